@@ -148,6 +148,9 @@ func genHubCase(rr *h.Rand, o *gen.Oracle, focus string) hubCase {
 			for i := 1 + rr.Intn(2); i > 0; i-- {
 				op.Topics = append(op.Topics, h.Pick(rr, p.sels))
 			}
+			if rr.Chance(1, 6) { // a repeated selector before a different one: [a, a, b]
+				op.Topics = []string{op.Topics[0], op.Topics[0], h.Pick(rr, p.sels)}
+			}
 			if focus == "events" && rr.Chance(1, 3) {
 				op.Topics = []string{"/.well-known/mercure/subscriptions/{topic}/{subscriber}"}
 			}
@@ -594,6 +597,54 @@ func hubOracles(hr *hubRun, cs hubCase, o *gen.Oracle) []h.Violation {
 	}
 	if tot := int(metricValue(hr.reg, "mercure_subscribers_total")); tot != len(hr.conns) {
 		add("C20:total-differs-from-accepted-streams", fmt.Sprintf("mercure_subscribers_total=%d but %d streams were accepted", tot, len(hr.conns)))
+	}
+	if up := int(metricValue(hr.reg, "mercure_updates_total")); up != hr.okPubs {
+		add("C20:updates-counter-differs-from-successful-publishes", fmt.Sprintf("mercure_updates_total=%d but %d publish requests were answered with success", up, hr.okPubs))
+	}
+	// C17: exactly one active=true and (once gone) one active=false per selector, seen by a '*' watcher
+	// that was connected first and is still connected (cases without close / restart)
+	if cs.Cfg.Subscriptions && len(hr.conns) > 0 && !hr.conns[0].done.Load() {
+		quiet := true
+		for _, op := range cs.Ops {
+			if op.Op == "close" || op.Op == "restart" || op.Op == "stall" {
+				quiet = false
+			}
+		}
+		w0 := subs[hr.conns[0].label]
+		if quiet && len(w0.sels) == 1 && w0.sels[0] == "*" && len(w0.claim) == 1 && w0.claim[0] == "*" {
+			type key struct {
+				sid, topic string
+				active     bool
+			}
+			seen := map[key]int{}
+			for _, e := range sseParse(hr.conns[0].w.Body()) {
+				var d struct {
+					Type, Subscriber, Topic string
+					Active                  bool
+				}
+				if json.Unmarshal([]byte(e.Data), &d) == nil && d.Type == "Subscription" {
+					seen[key{d.Subscriber, d.Topic, d.Active}]++
+				}
+			}
+			for _, lc := range hr.conns[1:] {
+				mult := map[string]int{}
+				for _, t := range subs[lc.label].sels {
+					mult[t]++
+				}
+				for t, m := range mult {
+					if got := seen[key{sidOf[lc.label], t, true}]; got != m {
+						add("C17:start-not-announced-exactly-once", fmt.Sprintf("connection %d subscribes %d time(s) to selector %q; a '*' watcher saw %d active=true event(s) for it", lc.label, m, t, got))
+					}
+					wantEnd := 0
+					if lc.done.Load() {
+						wantEnd = m
+					}
+					if got := seen[key{sidOf[lc.label], t, false}]; got != wantEnd {
+						add("C17:end-not-announced-exactly-once", fmt.Sprintf("connection %d (gone=%v) selector %q: a '*' watcher saw %d active=false event(s), expected %d", lc.label, lc.done.Load(), t, got, wantEnd))
+					}
+				}
+			}
+		}
 	}
 	// C18 / C13: the index lists exactly the open connections of the current hub
 	if !hr.stopped {
